@@ -41,10 +41,13 @@ func genHint(t *rapid.T, v6 bool, mode string) Hint {
 	var h Hint
 	kinds := []string{"none", "none", "free", "free", "held", "below", "above", "otherfam"}
 	if v6 {
-		kinds = append(kinds, "zero")
+		kinds = append(kinds, "zero", "v4m")
 	}
 	if mode == "C07" {
 		kinds = []string{"free", "free", "free", "none", "held"}
+		if v6 {
+			kinds = append(kinds, "v4m")
+		}
 	}
 	h.Kind = rapid.SampledFrom(kinds).Draw(t, "hint-kind")
 	if h.Kind != "none" && h.Kind != "zero" {
@@ -100,6 +103,13 @@ func genFree(t *rapid.T, v6 bool, mode string) FreeSpec {
 	default:
 		f.K = rapid.Uint64Range(0, 1<<16).Draw(t, "free-k")
 	}
+	if v6 && rapid.IntRange(0, 9).Draw(t, "free-v4m") == 0 {
+		// a sub-prefix of whatever block holds this v4-mapped address (if the pool covers it)
+		f.Kind = "v4m"
+		f.Inner = rapid.Uint64().Draw(t, "v4m-addr")
+		f.Sub = rapid.IntRange(1, 16).Draw(t, "v4m-sub")
+		return f
+	}
 	if v6 && rapid.IntRange(0, 11).Draw(t, "free-wider") == 0 {
 		f.Kind = "wider"
 		f.Sub = rapid.IntRange(0, 127).Draw(t, "wider-len")
@@ -151,7 +161,16 @@ func GenCase(mode string) func(t *rapid.T) Case {
 			}
 			c.Page = c.PoolLen + k
 			base := maskTo(ip128(half(t, "basehi"), half(t, "baselo")), c.PoolLen)
-			if rapid.IntRange(0, 11).Draw(t, "v4mapped-pool") == 0 {
+			if rapid.IntRange(0, 11).Draw(t, "covers-v4mapped") == 0 {
+				// a pool that covers ::ffff:0:0/96 without being v4-mapped itself (::/80, ::fffc:0:0/94, ...)
+				hi := 95
+				if 128-k < hi {
+					hi = 128 - k
+				}
+				c.PoolLen = rapid.IntRange(0, hi).Draw(t, "poollen-covers")
+				c.Page = c.PoolLen + k
+				base = maskTo(ip128(0, uint64(0xffff)<<32), c.PoolLen)
+			} else if rapid.IntRange(0, 11).Draw(t, "v4mapped-pool") == 0 {
 				// a pool inside ::ffff:0:0/96: net.IPNet.Contains also matches 4-byte addresses against it
 				c.PoolLen = rapid.IntRange(96, 128-k).Draw(t, "poollen-v4mapped")
 				c.Page = c.PoolLen + k
